@@ -2,8 +2,9 @@ import RichModel.Lemmas.LayoutFitsTable
 /-!
 # C01 — rendered output never exceeds the available width
 
-Property theorems only (helper lemmas: `Lemmas/Layout*.lean`).  Model: `Model/Layout.lean` — the inductive type `R` of renderable
-trees (text | padding | panel | align | constrain | styled | cast (`__rich__`) | opaque (no `__rich_measure__`) | group | rule | bar |
+Property theorems only (helper lemmas: `Lemmas/Layout*.lean`; the induction `good` / `goodL` behind `render_fits` is in
+`Lemmas/LayoutFitsTable.lean`).  Model: `Model/Layout.lean` — the inductive type `R` of renderable
+trees (text | str | padding | panel | align | constrain | styled | cast (`__rich__`) | opaque (no `__rich_measure__`) | group | rule | bar |
 progressBar | table | columns | tree, with every layout option), `render r opts w` = `Console.render(tree, options)` as a Segment
 stream, `measure`, and `smin`, the statement's *structural minimum*.  The model instantiates the oracles of the finished layers
 with its own recursive functions: `Wrap.wrap` (C02) / `Text.render` (C05) for text, the frames of C08, the table algorithm of C07.
@@ -31,15 +32,18 @@ Every exclusion is justified below by a witness on the model (section "Why each 
   rich in every run): they would follow from "below its structural minimum a renderable is never wider than that minimum", which needs
   `_calculate_column_widths` below one cell per column;
 * a rule is in the domain under every options, `overflow="ignore"` included (its text is exactly `w` cells wide: `text_fits_nowrap`),
-  provided the text it yields has no tab when it is not going to be truncated.
+  provided the text it yields has no tab when it is not going to be truncated;
+* bar / progress bar: proper fractions (positive denominators) and no negative `width` — every value the wire format can carry.
 
 `CfgOk cfg` asks four things only: the width function is rich's (`Gen.cellWidths`, regenerated from rich/_cell_widths.py on every run),
 tables draw `leading` as separate lines (`leadingRepeat = false`: with the as-found `true` a table line is `leading` times too wide, C07
 `old_table_rect_fails`), a panel renders its title at the width it aligned it to (`titleAtConsoleWidth = false`, the code since fix
 0e1edf7: before it a title longer than the console was wrapped at the console's width inside the top border), and the poison is empty
-(the model's marker for a Python exception; the driver answers `unmodelled` there — no request does on today's code).  EVERY OTHER code
-variant is universally quantified: all 2^4 frame variants, all 2^8 text/wrap variants and all 2^6 remaining table variants — in particular
-the code as it is now (`nowCfg`: everything repaired).
+(the model's marker for a Python exception; the driver answers `unmodelled` there — no request does on the code in /repo as it is now).  EVERY OTHER code
+variant is universally quantified: all 2^4 frame variants, both values of `ruleNoTitleEnd` (a `Rule` without title ignoring its `end`: as
+found / fix a442cbd), all 2^8 text/wrap variants and all 2^6 remaining table variants — in particular the code as it is now (`nowCfg`:
+everything repaired).  (`Dom` itself reads two of the table flags: with `flexNegative` or `flexClampZero` as found it excludes the `ratio=0`
+columns of expanding tables.)
 -/
 namespace RichModel.C01
 open RichModel RichModel.Frames RichModel.Layout
@@ -106,7 +110,7 @@ example : CfgOk releasedCfg := ⟨rfl, rfl, rfl, rfl⟩
 def wText (s : String) : R := .text (Text.new Variant.repaired s.toList [0])
 def wBar : R := .progressBar { total := ⟨100, 1⟩, completed := ⟨50, 1⟩, width := some 5 }
 
-/-- the cell widths of the lines of `Console.render(r, width=w)` on today's code -/
+/-- the cell widths of the lines of `Console.render(r, width=w)` on the code as it is now (`nowCfg`) -/
 def widthsOf (r : R) (w : Int) : List Nat := (renderedLines nowCfg r {} w).map (lineLength cwR)
 
 /-- `RenderGroup(ProgressBar(width=5), Text("ccc dd"))` at width 9: `ProgressBar` emits no line end, the text continues on the
@@ -189,8 +193,9 @@ example : Dom nowCfg (wTable2 { width := some 10 }) {} 16 := by
   rcases hc with rfl | rfl <;> exact Or.inl rfl
 example : (widthsOf (wTable2 { width := some 10 }) 16).all (· == 16) = true := by decide +kernel
 
-/-- **table_general_bound.**  A table with ARBITRARY columns (fixed `width`, `max_width`, `no_wrap`, `min_width`, ratios on today's
-code) that meets `tableBudget`: no line is wider than the available width plus `floorSum`, the `min_width + padding` floors of the
+/-- **table_general_bound.**  A table with ARBITRARY columns (fixed `width`, `max_width`, `no_wrap`, `min_width`; ratios on the
+code as it is now — both flexible-width clamps repaired, fixes ab98098 and 75c2776 — and no active ratio on the code before them)
+that meets `tableBudget`: no line is wider than the available width plus `floorSum`, the `min_width + padding` floors of the
 columns that have a `min_width` and no fixed `width` — the exact amount by which such a table can exceed the offer (attained: C07
 `min_width_overflows`), and 0 when no `min_width` binds. -/
 theorem table_general_bound (cfg : Cfg) (ok : CfgOk cfg) (to : TableOpts) (cols : List Col) (o : Opts) (w : Nat)
